@@ -42,8 +42,10 @@ func HarnessC15_Concurrent() {
 	if finite {
 		deadline = time.Now().Add(2 * time.Millisecond)
 	}
+	// thorough: two control senders beside the data writer when no close is sent (with the close as a
+	// fourth party the schedule space exceeds 5 million paths: measured, outside the registered bound)
 	nctl := 1
-	if vTier() == 1 {
+	if vTier() == 1 && !withClose {
 		nctl = 1 + vChoice(2)
 	}
 	done := make(chan c15Result, 8)
